@@ -723,6 +723,10 @@ func (s *Std) handle(rec *Record) *Resp {
 		s.mu.Lock()
 		st, f := s.healthStatus, s.healthFault
 		s.mu.Unlock()
+		if f == "slow" {
+			time.Sleep(60 * time.Millisecond)
+			f = ""
+		}
 		if f != "" {
 			return &Resp{Fault: f, MaxStall: 20 * time.Second}
 		}
